@@ -369,7 +369,8 @@ def conservation(ctx, o, S):
     dvar = c.args[1]
     steps = [d for d in fl.defs_of(attr_or_name(dvar)) if d.kind == 'aug' and d.node is not None and
              any(x is d.stmt for s in loop.body for x in ast.walk(s))]
-    uncond = [d for d in steps if not [t for t in cfg.conditions(d.node) if t[0] is not loop.test]]
+    hdr_conds = {id(t) for t, _ in cfg.conditions(cfg.node_of(loop))}
+    uncond = [d for d in steps if not [t for t in cfg.conditions(d.node) if t[0] is not loop.test and id(t[0]) not in hdr_conds]]
     if len(steps) != 1 or len(uncond) != 1:
         o.refute(fill, loop, attr_or_name(dvar), f"the day variable is stepped {len(steps)} time(s) per iteration ({len(uncond)} unconditionally); "
                                                  f"expected exactly one unconditional step")
